@@ -55,7 +55,7 @@ def run_item(args):
             except Exception:
                 pass
         obls.append(rec)
-    return dict(item=item.name, idx=idx, obligations=obls,
+    return dict(item=item.name, idx=idx, obligations=obls, bounded_notes=list(vc.bounded_notes),
                 undecided=[dict(fn=u.fn, reason=u.reason) for u in vc.undecided],
                 functions=list(vc.functions.values()), assumptions=sorted(vc.assumptions), trusted=sorted(vc.trusted),
                 paths=vc.path_count, wall=time.time() - t0, crashed=crashed, solver=dict(smt.STATS),
@@ -143,9 +143,14 @@ def report(prop, tier, seed, mod, results, native, wall):
     covers = [o for o in obls if o['kind'] == 'cover']
     canaries = [o for o in obls if o['kind'] == 'canary']
     undecided_fns = [u for r in results for u in r['undecided']]
-    failed = [o for o in proof if o['status'] == 'failed']
+    bounded = [o for o in obls if o['kind'] == 'bounded']
+    failed = [o for o in proof + bounded if o['status'] == 'failed']
     undecided_obl = [o for o in proof if o['status'] == 'undecided']
-    bad_vacuity = [o for o in covers + canaries if o['status'] != 'discharged']
+    # vacuity guard: a cover that is UNSAT means contradictory hypotheses (vacuous proof); a cover the solvers cannot
+    # decide is tolerated only if another cover of the same function is satisfiable
+    sat_fns = {o['fn'] for o in covers if o['status'] == 'discharged'}
+    bad_vacuity = [o for o in covers + canaries if o['status'] == 'failed' or
+                   (o['status'] != 'discharged' and o['fn'] not in sat_fns)]
     known_lines = []
     violations = []
     for o in failed:
@@ -198,6 +203,7 @@ def report(prop, tier, seed, mod, results, native, wall):
         rc = 1
     if crashed or native.get('crashed'):
         rc = 3 if not vlines else rc
+    failed_proof = [o for o in failed if o['kind'] == 'proof']
     discharged = [o for o in proof if o['status'] == 'discharged']
     by_backend = {}
     for o in discharged:
@@ -210,7 +216,7 @@ def report(prop, tier, seed, mod, results, native, wall):
                 seenf.add(f['fn'])
                 functions.append(f)
     und_names = {u['fn'] for u in undecided_fns} | {o['fn'] for o in undecided_obl}
-    all_proved = (len(proof) > 0 and len(discharged) + len([o for o in failed if o.get('known_finding')]) == len(proof)
+    all_proved = (len(proof) > 0 and len(discharged) + len([o for o in failed_proof if o.get('known_finding')]) == len(proof)
                   and not undecided_fns and not bad_vacuity)
     level = 'proof' if (all_proved and not crashed and len(discharged) == len(proof)) else 'other'
     samples = [dict(name=o['name'], verdict=o['status'], backend=o['backend'], ms=o['ms']) for o in proof[:6]]
@@ -230,7 +236,10 @@ def report(prop, tier, seed, mod, results, native, wall):
                      paths_explored=sum(r['paths'] for r in results)),
         bounded=dict(label='bounded stand-in and engine-vs-CPython differential (never counted as proved)',
                      cases=native.get('cases', 0), tests=native.get('tests', []), failures=len(nat_fail),
-                     bound=native.get('bound', '')),
+                     bound=native.get('bound', ''),
+                     symbolic_bounded_obligations=len(bounded),
+                     symbolic_bounded_discharged=len([o for o in bounded if o['status'] == 'discharged']),
+                     symbolic_bounded_notes=sorted({n for r in results for n in r.get('bounded_notes', [])})),
         known_findings=known_lines,
         samples=samples,
         source_files_read={k: v for r in results for k, v in r['read'].items()},
